@@ -82,9 +82,9 @@ EvEval ==
   /\ IsEvent("eval")
   /\ LET b == Build(E.src)
          out == EvalCall(b, E.ek, E.mode, St(ctxs[E.slot], <<>>)) IN        \* the call log is recorded per call
-     /\ ResIn(out.pats, E.res, FALSE)                       \* error variants by class (DESIGN.md section 4.3)
+     /\ (out.st.unc \/ ResIn(out.pats, E.res, FALSE))        \* error variants by class (DESIGN.md section 4.3)
      /\ (b.class = "WF" /\ ~b.open /\ "tree" \in DOMAIN E => SameTree(b.tree, E.tree))
-     /\ IF out.det
+     /\ IF out.det /\ ~out.st.unc
         THEN /\ (E.mode # "fresh" => SameVars(out.st.ctx, E.post))
              \* calls issued from several threads share one call log: it cannot be attributed to a single call
              /\ (E.mode # "fresh" /\ "nolog" \notin DOMAIN E => SameLog(out.st.log, E.log))
@@ -153,15 +153,29 @@ Evaluable(t) ==       \* every node has its operator's number of operands (tree/
   /\ (t.o \in {"Const", "Read", "Write", "Empty"} => Len(t.k) = 0)
   /\ (t.o = "Chain" => Len(t.k) > 0)
   /\ \A i \in 1..Len(t.k) : Evaluable(t.k[i])
+RECURSIVE CalledNames(_)
+CalledNames(t) == (IF t.o = "Call" THEN {t.n} ELSE {}) \cup UNION {CalledNames(t.k[i]) : i \in 1..Len(t.k)}
+UnknownCalls(t, c) == IF c.nb THEN {} ELSE {n \in CalledNames(t) : n \notin DOMAIN c.funcs /\ ~IsBuiltinName(n)}
 EvEvalTree ==
   /\ IsEvent("evaltree")
   /\ LET c == WithOracle(ctxs[E.slot], E.log) IN
-     IF Evaluable(E.tree)
+     IF Evaluable(E.tree) /\ UnknownCalls(E.tree, c) = {}
      THEN LET x == Eval(E.tree, St(c, <<>>), E.mode) IN
-          /\ ResMatches(PatOf(x.r), E.res, FALSE)
-          /\ SameVars(x.st.ctx, E.post)
-          /\ SameLog(x.st.log, E.log)
-          /\ ctxs' = [ctxs EXCEPT ![E.slot] = x.st.ctx]
+          IF x.st.unc
+          \* the documentation allows more than one outcome somewhere inside this evaluation: nothing is concluded
+          THEN /\ PrintT(<<"INCONCLUSIVE", l, "more than one documented outcome">>)
+               /\ E.res.p # "panic"
+               /\ ctxs' = [ctxs EXCEPT ![E.slot] = [@ EXCEPT !.vars = VarsOfSeq(E.post.vars), !.nb = E.post.nb]]
+          ELSE /\ ResMatches(PatOf(x.r), E.res, FALSE)
+               /\ SameVars(x.st.ctx, E.post)
+               /\ SameLog(x.st.log, E.log)
+               /\ ctxs' = [ctxs EXCEPT ![E.slot] = x.st.ctx]
+     \* a function that is neither in the context nor a builtin this specification knows: a builtin added to the crate
+     \* after the specification was written looks exactly like this; resolution is decided by MC_Resolve, not here
+     ELSE IF Evaluable(E.tree)
+     THEN /\ PrintT(<<"INCONCLUSIVE", l, "function unknown to the specification", UnknownCalls(E.tree, c)>>)
+          /\ E.res.p # "panic"
+          /\ ctxs' = [ctxs EXCEPT ![E.slot] = [@ EXCEPT !.vars = VarsOfSeq(E.post.vars), !.nb = E.post.nb]]
      \* an operator without its operands: every evaluation fails (C13); which error is not fixed
      ELSE /\ (E.deficient => E.res.p = "err")
           /\ E.res.p # "panic"
